@@ -38,7 +38,7 @@ TECHNIQUE = "runtime law monitor (equivalence, reference agreement, idempotence)
 
 BASE_WORDS = ["foo", "bar baz", "ärger", "élan", "ßtraße", "ǆungla", "ŉ x", "istanbul", "İzmir", "日本語", "한글", "שלום",
               "école", "x:y", "foo:bar baz", "a", "A", "9lives", "(disambiguation)", "foo (bar)", "c++",
-              "at&t", "100%", "o'neil", "ǉ", "ω mega", "straße:weg",
+              "at&t", "100%", "o'neil", "ǉ", "ω mega", "straße:weg", "star trek: voyager", "2001: a space odyssey", "re : mail",
               # compatibility characters: titles are not NFKC-folded
               "km\u00b2", "h\u2082o", "x \u00bd", "of\ufb01ce", "no \u2160", "\uff21bc", "e\u0301cole", "\u1e9b\u0323"]
 
